@@ -15,7 +15,7 @@ VERIF = scratch.VERIF
 CACHE = scratch.CACHE
 KNOWN = os.path.join(VERIF, "known_findings.json")
 
-TIER_CAP = {"quick": 900, "thorough": 7200}
+TIER_CAP = {"quick": 2400, "thorough": 7200}
 KANI_REAL = "/root/.kani/kani-0.68.0"
 # E8 (DESIGN.md section 4): bodies removed from the GOTO program before CBMC runs; each is a no-op for every property
 RMBODY = {
